@@ -67,13 +67,13 @@ MUTANTS = {
     "limit-before-increment": ([(E, "        self.steps += 1\n\n        step_limit_reached = (\n            self.scenario.step_limit is not None\n            and self.steps >= self.scenario.step_limit\n        )\n", "        step_limit_reached = (\n            self.scenario.step_limit is not None\n            and self.steps >= self.scenario.step_limit\n        )\n        self.steps += 1\n")], ["C06"]),
     "gstep-counts": ([(E, "        done = self.goal_reached(next_state)", "        done = self.goal_reached(next_state)\n        self.steps += 1")], ["C06", "C13", "C04"]),
     "done-on-input-state": ([(E, "done = self.goal_reached(next_state)", "done = self.goal_reached(state)")], ["C06"]),
-    "access-compare-gt": ([(S, "return self.get_host(host_addr).access >= access_level", "return self.get_host(host_addr).access > access_level")], ["C06", "C02"]),
+    "access-compare-gt": ([(S, "return self.get_host(host_addr).access >= access_level", "return self.get_host(host_addr).access > access_level")], ["C06", "C01"]),
     # ---------------------------------------------------------------- C07
     "draw-inverted": ([(N, "elif np.random.rand() > action.prob:", "elif np.random.rand() < action.prob:")], ["C07"]),
     "second-draw": ([(N, "        if action.is_subnet_scan():\n            return self._perform_subnet_scan(next_state, action)", "        if action.is_subnet_scan():\n            if np.random.rand() > action.prob:\n                return next_state, ActionResult(False, 0.0, undefined_error=True)\n            return self._perform_subnet_scan(next_state, action)")], ["C07"]),
     "draw-hoisted-above-gates": ([(N, "        has_req_permission = self.has_required_remote_permission(state, action)", "        if np.random.rand() > action.prob:\n            return next_state, ActionResult(False, 0.0, undefined_error=True)\n        has_req_permission = self.has_required_remote_permission(state, action)")], ["C07"]),
     "chance-exit-connection-error": ([(N, "return next_state, ActionResult(False, 0.0, undefined_error=True)", "return next_state, ActionResult(False, 0.0, connection_error=True)")], ["C07"]),
-    "reexploit-bypass-removed": ([(N, "        if action.is_exploit() and host_compromised:\n            # host already compromised so exploits don't fail due to randomness\n            pass\n        elif np.random.rand() > action.prob:", "        if np.random.rand() > action.prob:")], ["C07", "C01"]),
+    "reexploit-bypass-removed": ([(N, "        if action.is_exploit() and host_compromised:\n            # host already compromised so exploits don't fail due to randomness\n            pass\n        elif np.random.rand() > action.prob:", "        if np.random.rand() > action.prob:")], ["C07"]),
     "success-with-error-flag": ([(H, "            return next_state, ActionResult(True, 0, os=self.os)", "            return next_state, ActionResult(True, 0, os=self.os, permission_error=True)")], ["C07"]),
     "python-random-draw": ([(N, "import numpy as np\n\nfrom nasim.envs.action import ActionResult", "import random\nimport numpy as np\n\nfrom nasim.envs.action import ActionResult"), (N, "elif np.random.rand() > action.prob:", "elif random.random() > action.prob:")], ["C07", "C14"]),
     "prob-domain-loosened": ([(A, "        assert 0 <= prob <= 1.0\n", "        assert 0 <= prob <= 1.5\n")], ["C07"]),
